@@ -137,6 +137,17 @@ def build(desc, detour=False, extra_node="zz9", relabel=None):
                 h.add_edge((a, xn), 7)
             else:
                 h.add_edge((a, xn), "zz")
+    shrink = None
+    if detour == "shrink" and k != "D" and (k != "M" or desc["edges"]):
+        # an extra node that lives only in a singleton record of its own is inserted first and taken out at the end
+        # with keep_edges=True (its record shrinks to nothing and must vanish with it)
+        shrink = extra_node if not nodes or isinstance(nodes[0], str) else 10 ** 6
+        if k == "H":
+            h.add_edge((shrink,))
+        elif k == "T":
+            h.add_edge((shrink,), 7)
+        else:
+            h.add_edge((shrink,), desc["edges"][0][1])
     for n in nodes:
         md = desc["nmd"].get(n)
         h.add_node(R(n), metadata=dict(md)) if md else h.add_node(R(n))
@@ -230,6 +241,18 @@ def build(desc, detour=False, extra_node="zz9", relabel=None):
                 h.add_edge(tuple(R(x) for x in e[1]), e[0], **kw)
             else:
                 h.add_edge(tuple(R(x) for x in e[0]), e[1], **kw)
+    if shrink is not None:
+        h.remove_node(shrink, keep_edges=True)
+        # the library keeps a record shrunk to nothing as the empty hyperedge (accepted, DESIGN 2.10): take it out again
+        try:
+            if k == "H" and h.check_edge(()):
+                h.remove_edge(())
+            elif k == "T" and h.check_edge((), 7):
+                h.remove_edge((), 7)
+            elif k == "M" and h.check_edge((), desc["edges"][0][1]):
+                h.remove_edge(((), desc["edges"][0][1]))
+        except Exception:
+            pass
     for kk, v in desc.get("hmd", {}).items():
         h.set_attr_to_hypergraph_metadata(kk, v)
     return h
